@@ -59,7 +59,7 @@ type CaseResult struct {
 	Reached    map[string]bool
 	ReachModel map[string][]uint64
 	Observes   map[string][][]uint64 // reach name -> predicted observations under that model (flattened)
-	NVC, NUnsat, NConst int
+	NVC, NUnsat, NConst, NSubsumed int
 	States, Instrs, Merges int
 	Funcs      []string
 	Stubs      []string
@@ -222,7 +222,7 @@ func runCase(ld *Loaded, c Case, known map[string]bool, timeoutMs int, defSolver
 		}
 		res.Violations, res.Known, res.Undecided = ex.violations, ex.knownSeen, ex.undecided
 		res.Reached, res.ReachModel = ex.reached, ex.reachModel
-		res.NVC, res.NUnsat, res.NConst = len(ex.vcs), ex.nVCunsat, ex.nVCconst
+		res.NVC, res.NUnsat, res.NConst, res.NSubsumed = len(ex.vcs), ex.nVCunsat, ex.nVCconst, ex.nVCsubsumed
 		res.States, res.Instrs, res.Merges = ex.nStates, ex.nInstr, ex.nMerges
 		for f := range ex.funcsSeen {
 			res.Funcs = append(res.Funcs, f)
@@ -588,7 +588,7 @@ func main() {
 	reachedAll := map[string]bool{}
 	funcs := map[string]bool{}
 	stubs := map[string]bool{}
-	var totStates, totInstr, totVC, totUnsat, totConst, totQ, totMerges int
+	var totStates, totInstr, totVC, totUnsat, totConst, totQ, totMerges, totSubsumed int
 	var totSolver float64
 	maxUnwind := 0
 	var samples []interface{}
@@ -608,6 +608,7 @@ func main() {
 		totVC += r.NVC
 		totUnsat += r.NUnsat
 		totConst += r.NConst
+		totSubsumed += r.NSubsumed
 		totQ += r.Queries
 		totMerges += r.Merges
 		totSolver += r.SolverTime
@@ -806,7 +807,7 @@ func main() {
 			"bounds":                        bounds,
 			"functions_encoded":             fl,
 			"queries": map[string]interface{}{
-				"solver_queries": totQ, "vcs": totVC, "vcs_unsat": totUnsat, "vcs_folded_constant": totConst,
+				"solver_queries": totQ, "vcs": totVC, "vcs_unsat": totUnsat, "vcs_folded_constant": totConst, "vcs_subsumed_by_proved": totSubsumed,
 				"violations_confirmed": nViol, "known_findings_seen": kids, "undecided": nUndec, "unsupported_cases": nUnsup, "cases_cancelled_after_violation": nCancelled,
 			},
 			"solver":               defSolver,
